@@ -229,7 +229,7 @@ func (r *ccRecv) tick() (pv interface{}) {
 type ccStream struct {
 	*vfStream
 	k       string // shard:replica:index
-	payload []byte
+	pay     snapio.Payload
 	content int    // streams with equal content have byte identical chunks
 	role    string // first | retry | other
 }
@@ -514,7 +514,7 @@ func ccGenStream(t *rapid.T, c *ccCase, sfs vfs.IFS, n int, role string, mode st
 		sort.Ints(cuts)
 	}
 	vfBuildStream(t, sfs, s.vfStream, p, compressed, cuts, extSizes)
-	s.payload = p.Bytes()
+	s.pay = p
 	s.k = s.key()
 	return s
 }
@@ -531,7 +531,7 @@ func ccClone(base *ccStream, n int, from uint64) *ccStream {
 		ch.From = from
 		v.chunks[i] = ch
 	}
-	return &ccStream{vfStream: &v, k: base.k, payload: base.payload, content: base.content, role: "retry"}
+	return &ccStream{vfStream: &v, k: base.k, pay: base.pay, content: base.content, role: "retry"}
 }
 
 func ccGenCase(t *rapid.T, sfs vfs.IFS) *ccCase {
@@ -1034,9 +1034,10 @@ func ccProp(st *vfhelp.Stats) func(t *rapid.T) {
 				fail("c15-conc-finalized-file-unloadable", "the finalized main file of %s is refused by the snapshot validator (%s %v)", s.desc(), v.Where, v.Panic)
 			}
 			l := snapio.LoadFile(rfs, fp, nil, false)
-			if l.Failed() || !l.SM.Done || !bytes.Equal(l.SM.Got, s.payload) {
+			payload := s.pay.Bytes()
+			if l.Failed() || !l.SM.Done || !bytes.Equal(l.SM.Got, payload) {
 				fail("c15-conc-finalized-file-unloadable", "the finalized main file of %s does not load back with the %d payload bytes written: %s, state machine got %d bytes",
-					s.desc(), len(s.payload), l.Why(), len(l.SM.Got))
+					s.desc(), len(payload), l.Why(), len(l.SM.Got))
 			}
 		}
 		// 4. some serial order of the concurrent calls explains the outcome
@@ -1164,7 +1165,7 @@ func ccProp(st *vfhelp.Stats) func(t *rapid.T) {
 		label("retry=" + c.retryKind)
 		label(fmt.Sprintf("streams=%d", len(c.streams)))
 		label(fmt.Sprintf("exts=%d", len(c.streams[0].exts)))
-		nb := (len(c.streams[0].payload) + 16 + snapio.BlockSize - 1) / snapio.BlockSize
+		nb := (c.streams[0].pay.Len + 16 + snapio.BlockSize - 1) / snapio.BlockSize
 		if nb < 1 {
 			nb = 1
 		}
@@ -1269,4 +1270,66 @@ func TestVF_C15_ConcurrentReceive(t *testing.T) {
 	defer st.Flush()
 	st.Set("blocked_wait_ms", int(ccBlockedWait/time.Millisecond))
 	rapid.Check(t, ccProp(st))
+}
+
+// TestVF_C15_ReproStaleCollector is the fixed-scenario reproduction of the
+// finding c15-conc-collector-stale-record-leaks-retry-temp-dir (see
+// /verif/findings/E5.md, finding 6). It is not generated: sender 4 streams
+// snapshot 1:2:100, its first chunk is held inside Add by a slow disk; the first
+// chunk of the same snapshot streamed by sender 7 and the collector tick both
+// wait for the snapshot lock. Whenever the chunk gets the lock before the
+// collector, the collector drops the record of sender 7's stream using the age
+// of sender 4's record. Reports through Stats.Known.
+func TestVF_C15_ReproStaleCollector(t *testing.T) {
+	st := vfhelp.NewStats("TestVF_C15_ReproStaleCollector", "fixed scenario, up to 20 attempts (the order in which the two waiters get the lock is the scheduler's)")
+	defer st.Flush()
+	oldCS, oldGC, oldTO := snapshotChunkSize, gcIntervalTick, snapshotChunkTimeoutTick
+	snapshotChunkSize, gcIntervalTick, snapshotChunkTimeoutTick = 1024, 1, 1
+	defer func() { snapshotChunkSize, gcIntervalTick, snapshotChunkTimeoutTick = oldCS, oldGC, oldTO }()
+	sfs := vfs.NewMemFS()
+	first := &ccStream{vfStream: &vfStream{n: 0, mode: "stream", shard: 1, to: 2, from: 4, index: 100, term: 3,
+		membership: pb.Membership{Addresses: map[uint64]string{1: "a1"}}}, role: "first"}
+	vfBuildStream(t, sfs, first.vfStream, snapio.Payload{Kind: 2, Seed: 42, Len: 500}, false, nil, nil)
+	first.k = first.key()
+	retry := ccClone(first, 1, 7)
+	for attempt := 1; attempt <= 20; attempt++ {
+		r := newCCRecv()
+		root := vfDir(r.mem)(first.shard, first.to)
+		if err := r.mem.MkdirAll(root, 0o755); err != nil {
+			t.Fatalf("mkdir %v", err)
+		}
+		r.g.arm(0, false)
+		aDone, bDone, tDone := make(chan ccRes, 1), make(chan ccRes, 1), make(chan struct{})
+		go func() { aDone <- r.add(first.chunks[0]) }()
+		<-r.g.parked // sender 4's first chunk is inside Add, holding the snapshot lock
+		go func() { bDone <- r.add(retry.chunks[0]) }()
+		time.Sleep(20 * time.Millisecond) // (lets sender 7's first chunk reach the lock first)
+		go func() { r.tick(); close(tDone) }()
+		time.Sleep(20 * time.Millisecond)
+		close(r.g.release)
+		a, b := <-aDone, <-bDone
+		<-tDone
+		var rest []bool
+		for _, ch := range retry.chunks[1:] {
+			rest = append(rest, r.add(ch).ok)
+		}
+		for i := 0; i < 5; i++ {
+			r.tick()
+		}
+		_, dirs := vfScan(r.mem)
+		var left []string
+		for _, d := range dirs {
+			if strings.HasSuffix(d, ".receiving") {
+				left = append(left, d)
+			}
+		}
+		t.Logf("attempt %d: first#0 -> %v, retry#0 -> %v, rest of the retry -> %v, notifications %d, temporary directories after 5 more ticks: %v",
+			attempt, a.ok, b.ok, rest, len(r.msgs), left)
+		st.Case([]byte(fmt.Sprintf("%d", attempt)), len(left) > 0, fmt.Sprintf("leaked=%v", len(left) > 0))
+		if len(left) > 0 {
+			st.Known(t, ccSigStaleGC, "sender 7's stream was accepted (first chunk -> %v), every later chunk refused %v, and %v is never collected", b.ok, rest, left)
+			return
+		}
+	}
+	t.Logf("not reproduced in 20 attempts (the collector always got the lock first)")
 }
